@@ -161,6 +161,11 @@ func (g *G) Valid(t *spec.Type, v *spec.Val, loc Loc, depth int) any {
 	if rt == nil {
 		rt = t
 	}
+	if depth > 14 {
+		// a design whose constraints force an infinite value (required recursion through non-empty
+		// collections) has no valid instance: give up (the oracles discard cases that do not validate)
+		return nil
+	}
 	vals := AllVals(g.S, t, v)
 	m := mergeVals(vals)
 	// a value must satisfy every validation of the chain; with several enums etc. we only
